@@ -5,6 +5,7 @@
   value, the payloader has no state); on the Go side it is observed (see obligations "assumptions").
 -/
 import Rtp.Proofs.AV1Pay
+import Rtp.Proofs.AV1PaySim
 namespace Rtp.Props.C08.AV1
 open Rtp Rtp.Model Rtp.Model.AV1
 
@@ -45,8 +46,7 @@ theorem payloadPks_size (mtu : Nat) (hm : 2 ≤ mtu) (hs : mtu ≤ 65535) (data 
     refine appendObu_size _ _ _ _ _ _ _ hm hs ?_ h0 p hp
     intro h'; rw [h'] at hne; simp at hne
 
-theorem encode_length (p : Pk) : p.encode.length = p.size := by
-  simp [Pk.encode, Pk.size]; omega
+theorem encode_length (p : Pk) : p.encode.length = p.size := AV1B.encode_length p
 
 /-- every MTU and every input: each returned payload is at most MTU bytes long and not empty -/
 theorem c08_av1_bound (mtu : UInt16) (data : Bytes) :
@@ -71,8 +71,8 @@ theorem c08_av1 (calls : List (UInt16 × Option Bytes)) :
   | nil => simp [c08Obs, Pred.C08.histOk]
   | cons c cs ih =>
     obtain ⟨m, i⟩ := c
-    simp only [c08Obs, List.map_cons, Pred.C08.histOk, Bool.and_eq_true]
-    refine ⟨?_, by simpa [c08Obs] using ih⟩
+    simp only [c08Obs, List.map_cons, Pred.C08.histOk, Bool.and_eq_true, AV1B.payloadB_eq]
+    refine ⟨?_, by simpa [c08Obs, AV1B.payloadB_eq] using ih⟩
     have hb := c08_av1_bound m (i.getD [])
     simp only [Pred.C08.callOk, Pred.PayObs.ofFrags, Pred.PayObs.owned, Bool.false_or, Bool.not_false,
       Bool.and_self, Bool.true_and, Bool.and_eq_true, List.all_eq_true, decide_eq_true_eq,
